@@ -188,7 +188,8 @@ def type_args(ty):
 STD_ENUMS = {
     'Option': ['None', 'Some'], 'Result': ['Ok', 'Err'], 'ControlFlow': ['Continue', 'Break'],
     'Either': ['Left', 'Right'], 'IpAddr': ['V4', 'V6'], 'Cow': ['Borrowed', 'Owned'],
-    'Entry': ['Occupied', 'Vacant'],
+    'Entry': ['Occupied', 'Vacant'],            # std::collections::hash_map::Entry, linked_hash_map::Entry
+    'BTreeEntry': ['Vacant', 'Occupied'],       # std::collections::btree_map::Entry (declared in this order)
 }
 STD_ENUM_DISC = {'Ordering': {'Less': -1, 'Equal': 0, 'Greater': 1}}
 
@@ -963,6 +964,20 @@ class Exec:
     def _strip_generics(s):
         out, depth = [], 0
         i = 0
+        # a trailing `::<impl Trait<..>>` is the argument list of a method with an anonymous type parameter, not an `<impl Type>` path segment
+        mt = re.search(r'::<impl [^:]', s)
+        if mt:
+            j, d = mt.start() + 2, 0
+            while j < len(s):
+                if s[j] == '<':
+                    d += 1
+                elif s[j] == '>' and s[j - 1] != '-':
+                    d -= 1
+                    if d == 0:
+                        break
+                j += 1
+            if j == len(s) - 1 and re.search(r'\w$', s[:mt.start()]) and not re.search(r'(^|::)(num|str|slice|char|bool|f32|f64|array|ptr)$', s[:mt.start()]):
+                s = s[:mt.start()]
         while i < len(s):
             if s.startswith('::<', i) and not s.startswith('::<impl ', i):
                 j = i + 2
@@ -1016,7 +1031,7 @@ class Exec:
         self.models.append((re.compile(pattern), fn))
 
     # -------------------------------------------------------------- run
-    def run(self, func, args=None, start='bb0', env=None, stop=(), pre=(), heap=None):
+    def run(self, func, args=None, start='bb0', env=None, stop=(), pre=(), heap=None, subst=None):
         st = State()
         st.frames = {0: dict(heap or {})}
         st.pc = list(pre)
@@ -1028,7 +1043,7 @@ class Exec:
                 raise NotEncoded(f'{func.name}: {len(args)} args for {len(func.args)} parameters')
             for (name, ty), v in zip(func.args, args):
                 st.frames[fid][name] = v
-        st.stack = [Frame(func, fid, start)]
+        st.stack = [Frame(func, fid, start, subst=subst)]
         self.root_fid = fid
         work, outs = [st], []
         while work:
@@ -1380,7 +1395,7 @@ class Exec:
         if self.havoc_unknown:
             self.stats['stubbed'].add('HAVOC (unknown callee returns an arbitrary value): ' + callee[:80])
             return HavocCall(callee)
-        raise NotEncoded(f'call to {callee} (no stub, model or body)')
+        raise NotEncoded(f'call to {callee} (no stub, model or body) in {" <- ".join(fr.func.name.split("::")[-1] for fr in reversed(st.stack[-4:]))}')
 
     def _log(self, st, callee, args, r, tag):
         if isinstance(r, (Enter, Diverge)):
@@ -1501,15 +1516,29 @@ class Exec:
             if len(conc) == 1:
                 out = conc
         if len(out) == 1:
-            return out[0]
+            f0, sub0 = out[0]
+            tf = self.turbofish_subst(callee, f0, method=True)
+            if tf:
+                sub0 = dict(sub0 or {}, **tf)
+            return (f0, sub0)
         if len(out) > 1:
             raise NotEncoded(f'ambiguous callee {callee}: {[f.name for f, _ in out][:4]}')
+        if trait is not None:
+            # no impl of this crate provides the method: a default method of a trait of this crate (`fn m(self, ..) { .. }` in the trait), run with Self := the type
+            tb = base_type(trait)
+            dflt = [f for n in prog.names() if n.endswith('::' + tb + '::' + meth) and '<impl' not in n for f in prog.funcs_named(n) if f.blocks]
+            if len({(f.name, tuple(f.args)) for f in dflt}) == 1:
+                sub = {'Self': self_ty}
+                tf = self.turbofish_subst(callee, dflt[0], method=True)
+                if tf:
+                    sub.update(tf)
+                return (dflt[0], sub)
         return None
 
-    def turbofish_subst(self, callee, func):
+    def turbofish_subst(self, callee, func, method=False):
         """`name::<A, B>` calling a free generic function `fn name<K, V>(..)`: bind the function's type parameters (read from its source header) to the written arguments"""
         m = re.search(r'::<(.*)>$', callee)
-        if not m or '<impl at' in func.name:
+        if not m or ('<impl at' in func.name and not method):
             return None
         key = ('generics', func.name)
         if key not in self.memo:
